@@ -360,7 +360,7 @@ def main():
         chk.notes.append("replay %s: %s" % (f["key"], res))
 
     # ---------------------------------------------------------------- phase A: dirfiles and arrays
-    ndf = 100 if not chk.thorough else 500
+    ndf = 100 if not chk.thorough else 350
     ngen = 20 if not chk.thorough else 100
     dfs = [gen_dirfile(rng, i, chk.thorough) for i in range(ndf)] + \
           [gen_dirfile(rng, i * 7 + 3, chk.thorough, general=True) for i in range(ngen)]
